@@ -127,6 +127,13 @@ Print Assumptions locate_exact.
    4. Pages of size n > 0 at offsets 0, n, 2n, ... concatenate to the full answer and are pairwise
       disjoint (identifiers are unique in the store).  No side condition beyond success of the
       unsliced request. *)
+Theorem locate_slice : forall allowed objs fs off mx full,
+  nonneg off -> nonneg mx ->
+  locate_model allowed objs fs None None = Ok full ->
+  locate_model allowed objs fs off mx = Ok (slice off mx full).
+Proof. exact locate_slice_lemma. Qed.
+Print Assumptions locate_slice.
+
 Theorem pages_partition : forall allowed objs fs (n m : nat) full,
   (0 < n)%nat ->
   locate_model allowed objs fs None None = Ok full ->
